@@ -1,69 +1,6 @@
 // induction_lemmas.rs — C13: an inductive lemma `forall V (N >= n -> F)` is established by its two
 // obligations (base, step).  Uses the contract of Formula::substitute (C17).
 
-/// an assignment that respects sorts
-pub open spec fn wf_asg(s: Asg) -> bool { forall|k: VKey| in_sort(#[trigger] s[k], k.1) }
-
-pub open spec fn spec_ucl(g: Formula) -> Formula { spec_quantify(g, Quantifier::Forall, spec_fv(g)) }
-
-/// s with the keys bound by vars taken from s2
-pub open spec fn override_on(s: Asg, s2: Asg, vars: Seq<Variable>) -> Asg
-    decreases vars.len(),
-{
-    if vars.len() == 0 { s } else { override_on(s, s2, vars.drop_last()).insert(vkey(vars.last()), s2[vkey(vars.last())]) }
-}
-
-pub proof fn lemma_override_on(s: Asg, s2: Asg, vars: Seq<Variable>, k: VKey)
-    ensures override_on(s, s2, vars)[k] == (if bound_by(vars, k) { s2[k] } else { s[k] }),
-    decreases vars.len(),
-{
-    if vars.len() > 0 {
-        let pre = vars.drop_last();
-        lemma_override_on(s, s2, pre, k);
-        assert(vars =~= pre.push(vars.last()));
-        lemma_bound_by_push(pre, vars.last(), k);
-    } else {
-        assert(!bound_by(vars, k));
-    }
-}
-
-pub proof fn lemma_fv_bound(g: Formula, k: VKey)
-    ensures bound_by(spec_fv(g), k) == fv(g, k),
-{
-    let xs = spec_fv(g);
-    if bound_by(xs, k) {
-        let i = choose|i: int| 0 <= i < xs.len() && #[trigger] vkey(xs[i]) == k;
-        assert(xs.contains(xs[i]));
-        lemma_spec_fv(g, xs[i]);
-    }
-    if fv(g, k) {
-        let v = Variable { name: str_of(k.0), sort: k.1 };
-        broadcast use axiom_str_of;
-        assert(vkey(v) == k);
-        lemma_spec_fv(g, v);
-        lemma_contains_bound(xs, v);
-    }
-}
-
-/// a universal closure that is true (under a sort-respecting assignment) makes its body true under
-/// every sort-respecting assignment
-pub proof fn lemma_ucl_valid(g: Formula, m: Interp, s: Asg, s2: Asg)
-    requires cl_sat(spec_ucl(g), m, s), wf_asg(s2),
-    ensures cl_sat(g, m, s2),
-{
-    let xs = spec_fv(g);
-    lemma_quantify_cl(g, Quantifier::Forall, xs, m, s);
-    lemma_cl_block(Quantifier::Forall, xs, g, m, s);
-    let s3 = override_on(s, s2, xs);
-    assert forall|k: VKey| !bound_by(xs, k) implies #[trigger] s3[k] == s[k] by { lemma_override_on(s, s2, xs, k); }
-    assert forall|k: VKey| bound_by(xs, k) implies in_sort(#[trigger] s3[k], k.1) by { lemma_override_on(s, s2, xs, k); }
-    assert(variant(s3, s, xs));
-    let p = |s9: Asg| cl_sat(g, m, s9);
-    assert(p(s3));
-    assert forall|k: VKey| fv(g, k) implies s3[k] == s2[k] by { lemma_fv_bound(g, k); lemma_override_on(s, s2, xs, k); }
-    lemma_coin_cl(g, m, s3, s2);
-}
-
 /// the antecedent `N$i >= n`
 pub open spec fn ge_antecedent(nv: String, n: isize) -> Formula {
     Formula::AtomicFormula(AtomicFormula::Comparison(Comparison {
